@@ -137,8 +137,15 @@ def run_uf(run):
         if pi < 2:
             run.sample({"apply_uf problem (nrb,nel,nrf,m,b,k,interleaved)": p, "history": h})
     # DR_Event.apply_uf: all registered tuples at once, sharing one cache inside
-    ufs = [(1, 1, 1, 1), (1.2, 1.1, 1.25, 0.9), (1, 1, 1.25, 1), (1, 1.1, 1, 0.9)]
-    for order in ([0, 1, 2, 3], [3, 2, 1, 0], [1, 0, 3, 2]):
+    # tuples drawn from a small value grid, so that different tuples share products (ruf*suf, euf*duf, euf*suf, ...):
+    # a cache keyed on anything less than the whole tuple shows up
+    grid = (1, 1.25, 2, 0.5)
+    ufs = [(1, 1, 1, 1), (1.25, 1.25, 1, 1), (1, 1, 1.25, 1.25), (2, 2, 1, 1), (1, 1, 2, 2), (1, 1, 1.25, 1), (0.5, 2, 1, 2),
+           (2, 0.5, 2, 0.5), (1.25, 1, 1, 1.25), (1, 1.25, 1.25, 1)]
+    ufs += [tuple(rnd.choice(grid) for _ in range(4)) for _ in range(6)]
+    ufs = list(dict.fromkeys(ufs))
+    nu = len(ufs)
+    for order in (list(range(nu)), list(range(nu))[::-1], rnd.sample(range(nu), nu)):
         DR = cla.DR_Event()
         for oi in order:
             drdefs = cla.DR_Def(dict(se=0, uf_reds=ufs[oi]))
